@@ -64,6 +64,8 @@ func (iph *IPHashStrategy) NextBackend(r *http.Request) *Backend {
 	if strings.Contains(ipStr, ",") {
 		ipStr = strings.Split(ipStr, ",")[0]
 	}
+	// List elements may be surrounded by optional whitespace ("a , b")
+	ipStr = strings.TrimSpace(ipStr)
 
 	// Hash the IP address
 	hash := fnv.New32a()
